@@ -8,6 +8,8 @@ package main
 //
 //	op = q:<repo>        the queue worker (Server.processQueue) indexes repository <repo>
 //	     f:<repo>        a forced re-index (Server.forceIndex) of repository <repo>
+//	     m:0             a merge run (Server.merge, the body of the periodic doMerge), parked where it builds the merge command
+//	     v:0             a vacuum run (Server.vacuum), parked where removeTombstones starts its merge
 //	     d:<tenant>:<k>  data deletion (Server.DeleteAllData) for <tenant>, parked at its k-th look at the request's tenant
 //	                     (1 = on entry, 2 = explodeTenantCompoundShards, 3 = purge of the index dir, 4 = purge of .trash)
 //
@@ -23,6 +25,7 @@ import (
 	"fmt"
 	"io"
 	"os"
+	"os/exec"
 	"path/filepath"
 	"runtime"
 	"strconv"
@@ -34,6 +37,7 @@ import (
 
 	"github.com/sourcegraph/zoekt"
 	indexserverv1 "github.com/sourcegraph/zoekt/cmd/zoekt-sourcegraph-indexserver/grpc/protos/zoekt/indexserver/v1"
+	"github.com/sourcegraph/zoekt/index"
 	"github.com/sourcegraph/zoekt/internal/tenant"
 )
 
@@ -182,6 +186,73 @@ func (c *verifSiteCtx) Value(key any) any {
 	return v
 }
 
+// verifSiteShards puts two mergeable simple shards and one compound shard with a tombstone into dir, and sets the merge
+// options so that a merge run finds exactly the two simple shards and a vacuum run works on the compound shard.
+func verifSiteShards(dir string, s *Server) error {
+	build := func(path string, id uint32) (int64, error) {
+		b, err := index.NewShardBuilder(&zoekt.Repository{ID: id, Name: fmt.Sprintf("github.com/verif/shard%d", id), TenantID: 3})
+		if err != nil {
+			return 0, err
+		}
+		if err := b.AddFile("F", []byte("verif call sites")); err != nil {
+			return 0, err
+		}
+		f, err := os.Create(path)
+		if err != nil {
+			return 0, err
+		}
+		defer f.Close()
+		if err := b.Write(f); err != nil {
+			return 0, err
+		}
+		fi, err := f.Stat()
+		if err != nil {
+			return 0, err
+		}
+		return fi.Size(), nil
+	}
+	sub := filepath.Join(dir, ".verif-build")
+	os.MkdirAll(sub, 0o755)
+	defer os.RemoveAll(sub)
+	var files []index.IndexFile
+	for i := uint32(0); i < 2; i++ {
+		p := filepath.Join(sub, fmt.Sprintf("c%d.zoekt", i))
+		if _, err := build(p, 100+i); err != nil {
+			return err
+		}
+		f, err := os.Open(p)
+		if err != nil {
+			return err
+		}
+		inf, err := index.NewIndexFile(f)
+		if err != nil {
+			return err
+		}
+		defer inf.Close()
+		files = append(files, inf)
+	}
+	tmp, dst, err := index.Merge(dir, files...)
+	if err != nil {
+		return err
+	}
+	if err := os.Rename(tmp, dst); err != nil {
+		return err
+	}
+	if err := index.SetTombstone(dst, 100); err != nil {
+		return err
+	}
+	var size int64
+	for i := uint32(0); i < 2; i++ {
+		n, err := build(filepath.Join(dir, fmt.Sprintf("github.com%%2Fverif%%2Fshard%d_v16.00000.zoekt", 200+i)), 200+i)
+		if err != nil {
+			return err
+		}
+		size = n
+	}
+	s.mergeOpts = mergeOpts{targetSizeBytes: size + 1, minSizeBytes: 0, minAgeDays: 0}
+	return nil
+}
+
 func verifC31Sites(args []string) string {
 	mt, wait := "0", 300
 	var specs [2]string
@@ -225,6 +296,12 @@ func verifC31Sites(args []string) string {
 	sg := &verifSiteSG{ops: []*verifSiteOp{H, C}}
 	s := &Server{Sourcegraph: sg, IndexDir: dir, IndexConcurrency: 1, logger: sglog.NoOp()}
 	s.queue = NewQueue(0, 0, sglog.NoOp())
+	if H.kind == 'm' || C.kind == 'm' || H.kind == 'v' || C.kind == 'v' {
+		if err := verifSiteShards(dir, s); err != nil {
+			return "ERR " + err.Error()
+		}
+		defer func() { mockMerger = nil }()
+	}
 
 	start := func(op *verifSiteOp) {
 		switch op.kind {
@@ -241,6 +318,29 @@ func verifC31Sites(args []string) string {
 				default:
 					op.ret = "ran"
 				}
+				op.mu.Unlock()
+				close(op.done)
+			}()
+		case 'm':
+			go func() {
+				s.merge(func(args ...string) *exec.Cmd {
+					op.gate() // inside the Global critical section of the merge
+					return exec.Command("false")
+				})
+				op.mu.Lock()
+				op.ret = "ok"
+				op.mu.Unlock()
+				close(op.done)
+			}()
+		case 'v':
+			mockMerger = func() error {
+				op.gate() // inside the Global critical section of vacuum's removeTombstones
+				return fmt.Errorf("verif: no merge")
+			}
+			go func() {
+				s.vacuum()
+				op.mu.Lock()
+				op.ret = "ok"
 				op.mu.Unlock()
 				close(op.done)
 			}()
